@@ -4,8 +4,8 @@ P=$1; shift
 git -C /repo apply $P || { echo "PATCH DOES NOT APPLY"; exit 2; }
 RES=""
 for c in "$@"; do
-  OUT=$(cd /verif && ./check $c 2>&1 | cut -c1-500 | head -4)
-  echo "$OUT"
+  OUT=$(cd /verif && ./check $c 2>&1 | cut -c1-500)
+  echo "$OUT" | grep -E "^VIOLATION|^  [a-z]" | head -4
   if echo "$OUT" | grep -q "^VIOLATION property=$c"; then RES="$RES $c:caught"; else RES="$RES $c:missed"; fi
 done
 git -C /repo checkout -- .
